@@ -126,6 +126,60 @@ func (c *Ctx) ruleArgsIndex(rule string) {
 	}
 }
 
+// constantTable: v is the load of a package-level map[string]string that is stored once, in the package initialiser, with
+// a map made there and filled with constant keys and values, and that nothing else writes: its contents.
+func constantTable(g *core.Module, v ssa.Value) map[string]string {
+	ld, ok := v.(*ssa.UnOp)
+	if !ok {
+		return nil
+	}
+	global, ok := ld.X.(*ssa.Global)
+	if !ok {
+		return nil
+	}
+	var made ssa.Value
+	stores := 0
+	for _, fn := range g.Funcs {
+		for _, b := range fn.Blocks {
+			for _, in := range b.Instrs {
+				switch x := in.(type) {
+				case *ssa.Store:
+					if x.Addr == ssa.Value(global) {
+						stores++
+						if fn.Name() != "init" {
+							return nil
+						}
+						made = x.Val
+					}
+				case *ssa.MapUpdate:
+					// a write through a load of the global anywhere: the table is not constant
+					if l2, isLoad := x.Map.(*ssa.UnOp); isLoad && l2.X == ssa.Value(global) {
+						return nil
+					}
+				}
+			}
+		}
+	}
+	mk, ok := made.(*ssa.MakeMap)
+	if !ok || stores != 1 || mk.Referrers() == nil {
+		return nil
+	}
+	out := map[string]string{}
+	for _, ref := range *mk.Referrers() {
+		mu, isUpdate := ref.(*ssa.MapUpdate)
+		if !isUpdate {
+			continue
+		}
+		k, okK := core.ConstString(mu.Key)
+		val, okV := core.ConstString(mu.Value)
+		if !okK || !okV {
+			return nil
+		}
+		out[k] = val
+	}
+	return out
+}
+
 // ruleCodegenFlow: the ignore argument is compared with the object ID itself, and the type mapping is the documented one.
 func (c *Ctx) ruleCodegenFlow(rule string) {
 	g := c.Gen
@@ -189,6 +243,16 @@ func (c *Ctx) ruleCodegenFlow(rule string) {
 			if rv == ssa.Value(fn.Params[0]) {
 				passThrough = true
 				continue
+			}
+			// a lookup table in place of the switch: `if t, ok := table[id]; ok { return t }` with a package-level map that
+			// is filled once, with constants, when the package is initialised
+			if ex, isEx := rv.(*ssa.Extract); isEx && ex.Index == 0 {
+				if lk, isLk := ex.Tuple.(*ssa.Lookup); isLk && lk.CommaOk && lk.Index == ssa.Value(fn.Params[0]) {
+					for in, out := range constantTable(g, lk.X) {
+						got[in] = out
+					}
+					continue
+				}
 			}
 			out, ok := core.ConstString(rv)
 			if !ok {
